@@ -109,6 +109,11 @@ def contact_mask(r, sig, tol=CONTACT_TOL):
     return np.abs(np.asarray(r) - sig) >= tol
 
 
+def pot_sigma(spec, sig):
+    s = spec.get('sigma')
+    return sig if s is None else s
+
+
 def _lj(x, eps, s):
     return 4.0 * eps * ((s / x) ** 12 - (s / x) ** 6)
 
@@ -142,13 +147,30 @@ def u_ref(spec, r, sig):
     raise KeyError(t)
 
 
+def special_points(spec, sig):
+    """distances at which the documented u(r) switches branch (core edge, cut-off): a grid point within the contact
+    tolerance of one of them can fall on either side depending on last-digit noise of the grid"""
+    s = pot_sigma(spec, sig)
+    pts = [s]
+    if spec['t'] == 'LJ' and spec.get('rcut') is not None:
+        pts.append(spec['rcut'])
+    if spec['t'] == 'WCA':
+        pts.append(s * 2 ** (1.0 / 6.0))
+    return pts
+
+
+def branch_mask(spec, r, sig, tol=CONTACT_TOL):
+    """True where r is NOT within tol of a branch point of the potential"""
+    m = np.ones(len(r), dtype=bool)
+    for x in special_points(spec, sig):
+        m &= np.abs(np.asarray(r) - x) >= tol
+    return m
+
+
 def hard_core_family(spec):
     return spec['t'] in ('HS', 'HCLJ', 'EXP')
 
 
-def pot_sigma(spec, sig):
-    s = spec.get('sigma')
-    return sig if s is None else s
 
 
 # --------------------------------------------------------------------------- closures
@@ -166,7 +188,7 @@ def c_ref(spec, r, gam, u, sig, ms='published'):
         elif t == 'HNC':
             out = np.exp(gam - u) - 1.0 - gam
         elif t == 'MSA':
-            out = -u + 0.0 * gam
+            out = np.array(np.broadcast_to(-np.asarray(u, dtype=float), gam.shape))     # independent of gamma, even for inf/nan trial values
         elif t == 'MS':
             if ms == 'published':
                 out = np.exp(np.sqrt(1.0 + 2.0 * (gam - u)) - 1.0) - 1.0 - gam
